@@ -820,7 +820,11 @@ func main() {
 		}
 	}
 	rowsSingle := r.Pick(3, 4) // contents for trees with at most one atom
-	rowsPair := r.Pick(2, 3)   // contents for two-atom trees
+	rowsPair := 2              // contents for two-atom trees
+	// thorough = a fixed volume (about 4x quick), not cut by the clock: all 30 layouts for
+	// trees with at most one atom on <=3 rows, 4-row contents and two-atom trees (all
+	// templates) on the six layouts of the quick tier, the history family on 20 layouts
+	core := map[string]bool{"hash-2x1": true, "mod-2x2": true, "range-2x2": true, "date_month-2x1": true, "mycat_mod-2x2": true, "range-3x1": true}
 	var contents [][]int
 	enum.Multisets(len(rig.Universe), rowsSingle, func(s []int) { contents = append(contents, append([]int{}, s...)) })
 
@@ -873,6 +877,9 @@ func main() {
 					continue
 				}
 				if tr[0] >= 3 && tr[0] <= 8 {
+					if !core[l.Name()] {
+						continue
+					}
 					pairItems = append(pairItems, item{l: l, t: t, tr: tr, tri: tri, ks: -1})
 				} else {
 					items = append(items, item{l: l, t: t, tr: tr, tri: tri, ks: -1})
@@ -897,6 +904,9 @@ func main() {
 	var hLayouts []rig.Layout
 	for _, l := range layouts {
 		if r.Quick() && seenRule[l.Rule] {
+			continue
+		}
+		if r.Thorough() && l.Tables() < 3 {
 			continue
 		}
 		seenRule[l.Rule] = true
@@ -1047,6 +1057,9 @@ func main() {
 			return
 		}
 		maxRows := rowsSingle
+		if !core[it.l.Name()] {
+			maxRows = 3
+		}
 		if it.tr[0] >= 3 && it.tr[0] <= 8 {
 			maxRows = rowsPair
 		}
@@ -1134,6 +1147,7 @@ func main() {
 	if r.Quick() {
 		nt = len(pairTmpl)
 	}
+	r.Set("volume", "fixed by the tier: the run ends when every item was executed (exhaustive) or at the engine's budget (cap_hit)")
 	r.Set("bounds", fmt.Sprintf("%d statement templates (%d of them for two-atom trees) x %d WHERE trees (%d atoms; forms none, a, NOT (a), NOT a, and 6 two-atom forms) x contents: all multisets of <=%d rows (<=%d rows for two-atom trees) of a %d-row universe; %d key-assigning statements per layout",
 		len(tmpls), nt, len(trees), len(atoms), rowsSingle, rowsPair, len(rig.Universe), len(keyAssign)))
 	r.Set("universe_items", len(items))
